@@ -146,7 +146,49 @@ func checkReuseIdMatch(c *Ctx, lf *lockFacts) {
 			}
 		}
 	})
-	c.check(good && lf.held(cmp)[T+"reusableConn.m"] == lockW, "reuse-reply-id-checked@readLoop", instrPos(cmp), "a message whose id is not the registered one finds no waiter (the connection is closed)",
+	// the same, whatever the shape: every hand-over of the message (a send in readLoop) runs only when the comparison
+	// said "equal" (guards, including those derived through named booleans and nil-phis)
+	if !good {
+		nSend, allGuarded := 0, true
+		eachInstr(rl, func(in ssa.Instruction) {
+			isSend := false
+			if sel, ok := in.(*ssa.Select); ok {
+				for _, st := range sel.States {
+					if st.Dir == types.SendOnly {
+						isSend = true
+					}
+				}
+			}
+			if _, ok := in.(*ssa.Send); ok {
+				isSend = true
+			}
+			if !isSend {
+				return
+			}
+			nSend++
+			guarded := false
+			for _, g := range guardsOfInstr(in) {
+				v, truth := g.asBool()
+				if v == ssa.Value(cmp) && truth == (cmp.Op == token.EQL) {
+					guarded = true
+				}
+			}
+			if !guarded {
+				allGuarded = false
+			}
+		})
+		good = nSend > 0 && allGuarded
+	}
+	// the registered id is read under the connection lock (the id of the message itself is the reader's own data)
+	regReadLocked := false
+	for _, side := range []ssa.Value{cmp.X, cmp.Y} {
+		if k, ok := loadedField(side); ok && k == T+"reusableConn.waitingQid" {
+			if ld, isLd := side.(*ssa.UnOp); isLd && lf.held(ld)[T+"reusableConn.m"] == lockW {
+				regReadLocked = true
+			}
+		}
+	}
+	c.check(good && (lf.held(cmp)[T+"reusableConn.m"] == lockW || regReadLocked), "reuse-reply-id-checked@readLoop", instrPos(cmp), "a message whose id is not the registered one finds no waiter (the connection is closed)",
 		"the id comparison does not decide whether the waiter gets the message (or runs outside the connection lock)")
 }
 
@@ -179,6 +221,12 @@ func checkDeliveredReplyWins(c *Ctx) {
 			continue
 		}
 		isPoll := func(x ssa.Instruction) bool {
+			if cl, ok := x.(*ssa.Call); ok {
+				// a reply poll helper whose last operation before every return is the poll
+				if sum := replyPollSummary(cl.Call.StaticCallee()); sum != nil && sum.pollsLast {
+					return true
+				}
+			}
 			sel, ok := x.(*ssa.Select)
 			if !ok || sel.Blocking {
 				return false
@@ -364,6 +412,9 @@ func checkWaitingDeadlineUnconditional(c *Ctx) {
 					continue
 				}
 			}
+			if g.Derived {
+				continue
+			}
 			extra = guardText(g)
 		}
 		if !flag {
@@ -423,7 +474,7 @@ func checkCacheNeverStoresOpt(c *Ctx) {
 		if !ok || callName(ci) != "github.com/miekg/dns.Copy" {
 			return
 		}
-		n++
+		n += bodyWeight(f, g)
 		skipsOpt := false
 		for _, gd := range guardsOfInstr(in) {
 			cm, ok := gd.asCmp()
@@ -565,6 +616,9 @@ func checkDumpSkipsBadEntries(c *Ctx, limit int64) {
 		}
 		// ... and goes on with the next entry: no return on the error edge before the loop head
 		hdr := innermostLoopHeader(ci.Block())
+		if hdr == nil && helperLoopHeader(ci) != nil && ci.Parent().Signature.Results().Len() == 0 {
+			return // the loop body is a result-less helper of the loop: returning from it is going on with the next entry
+		}
 		for _, r := range referrers(ci) {
 			bo, ok := r.(*ssa.BinOp)
 			if !ok || !isNilConst(bo.Y) || (bo.Op != token.NEQ && bo.Op != token.EQL) {
